@@ -208,7 +208,12 @@ def truth(z):
         return False
     if Paths.active is None:
         raise OutsideSubset("truth value of a symbolic condition %s (data-dependent branch)" % s)
+    if NO_FORK[0]:
+        raise OutsideSubset("a branch on a condition about the GENERIC element of a sequence of symbolic length (a filter is not an element-wise map): %s" % s)
     return Paths.active.decide(s)
+
+
+NO_FORK = [0]
 
 
 class SB:
